@@ -55,6 +55,8 @@ import (
 	"go.etcd.io/etcd/clientv3"
 	pb "go.etcd.io/etcd/etcdserver/etcdserverpb"
 	"go.uber.org/zap/zapcore"
+	"google.golang.org/grpc/codes"
+	"google.golang.org/grpc/status"
 	"pdverif/vkit"
 	"pdverif/vkit/etcdfix"
 	"pdverif/vkit/gate"
@@ -80,7 +82,7 @@ func TestProp(t *testing.T)   { vkit.RunAll(t) }
 func TestReplay(t *testing.T) { vkit.RunReplay(t) }
 
 func init() {
-	vkit.Register("lease", vkit.N{Quick: 1600, Thorough: 24000}, genCase, runCase)
+	vkit.Register("lease", vkit.N{Quick: 1200, Thorough: 24000}, genCase, runCase)
 }
 
 // ---------------------------------------------------------------- case data
@@ -362,6 +364,7 @@ type rec struct {
 	leaseID int64
 	revoked int64
 	action  etcdfix.Action
+	err     error
 }
 
 type cont struct {
@@ -443,7 +446,7 @@ func (w *world) install() {
 			w.mu.Unlock()
 			return act
 		}, func(ev *etcdfix.Event) {
-			r := &rec{slot: si, method: ev.Method, write: ev.Write, applied: ev.Applied, keys: ev.Keys, puts: ev.Puts, action: ev.Action}
+			r := &rec{slot: si, method: ev.Method, write: ev.Write, applied: ev.Applied, keys: ev.Keys, puts: ev.Puts, action: ev.Action, err: ev.Err}
 			switch resp := ev.Resp.(type) {
 			case *pb.TxnResponse:
 				r.sent = true
@@ -490,6 +493,29 @@ func (w *world) revokeRaw(l int64) {
 	if !g {
 		w.f.RevokeRaw(l)
 	}
+}
+
+// envFailure: an RPC of the code under test failed for a reason of the environment (time-out,
+// connection trouble on an overloaded machine), not by injection and not by etcd's own answer.
+// Such a case is undecided: nothing that requires an operation to succeed is asserted.
+func envFailure(evs []*rec) bool {
+	for _, e := range evs {
+		if e.err == nil || e.action != etcdfix.Proceed {
+			continue
+		}
+		switch status.Code(e.err) {
+		case codes.DeadlineExceeded, codes.Canceled, codes.Unavailable, codes.Aborted, codes.ResourceExhausted, codes.Internal:
+			return true
+		}
+		if errors.Is(e.err, context.DeadlineExceeded) || errors.Is(e.err, context.Canceled) {
+			return true
+		}
+		m := e.err.Error()
+		if strings.Contains(m, "deadline exceeded") || strings.Contains(m, "context canceled") || strings.Contains(m, "transport") {
+			return true
+		}
+	}
+	return false
 }
 
 func (w *world) takeEvents() []*rec {
@@ -797,6 +823,10 @@ func (w *world) doCampaign(c *cont, ttl int64, fault string) error {
 	if err != nil {
 		return err
 	}
+	if envFailure(evs) {
+		w.info.Inconclusive = true
+		return nil
+	}
 	post, postOK := w.record()
 	switch {
 	case cerr == nil:
@@ -822,8 +852,11 @@ func (w *world) doCampaign(c *cont, ttl int64, fault string) error {
 		if fault == "" && !applied {
 			refused := false
 			if w.c.Domain == "dc" {
-				nv, _, _, okN := w.f.GetRaw(w.nextKey)
-				refused = okN && nv != fmt.Sprint(c.id)
+				nk, okN, e := w.getAt(w.nextKey, 0)
+				if e != nil {
+					panic(errOracleRead)
+				}
+				refused = okN && nk.V != fmt.Sprint(c.id)
 			}
 			if !refused {
 				return fmt.Errorf("campaign of %s failed (%v) although no record existed and no fault was injected", c.name, cerr)
@@ -858,6 +891,10 @@ func (w *world) doResign(c *cont, fault string) error {
 	}
 	hadLease := c.granted || c.noLease
 	c.held, c.granted, c.noLease = false, false, false
+	if envFailure(evs) {
+		w.info.Inconclusive = true
+		return nil
+	}
 	post, postOK := w.record()
 	if mine && revoked && fault == "" && postOK && post == pre {
 		return fmt.Errorf("%s resigned (its lease was revoked) but its record is still there", c.name)
@@ -1043,6 +1080,7 @@ func (w *world) doWrite(c *cont, op Op) error {
 	if err := w.checkAppliedWrites(evs); err != nil {
 		return err
 	}
+	env := envFailure(evs)
 	post, err := w.snap()
 	if err != nil {
 		w.info.Inconclusive = true
@@ -1064,7 +1102,9 @@ func (w *world) doWrite(c *cont, op Op) error {
 			w.info.Class("nonowner-write-not-sent:" + op.W)
 		}
 	} else {
-		if attempted && !faulted && (c.campaigned || !guardedKind(op.W)) {
+		if env {
+			w.info.Class("owner-write-environment-failure")
+		} else if attempted && !faulted && (c.campaigned || !guardedKind(op.W)) {
 			if werr != nil || !applied {
 				return fmt.Errorf("%s, the owner of the record, failed without injected fault: %v (applied %v)", who, werr, applied)
 			}
@@ -1074,6 +1114,10 @@ func (w *world) doWrite(c *cont, op Op) error {
 		} else {
 			w.info.Class("owner-write-not-sent:" + op.W)
 		}
+	}
+	if env {
+		w.info.Inconclusive = true
+		return nil
 	}
 	if op.W == "tso-update" && werr != nil && op.Reset {
 		// AllocatorManager.updateAllocator: ResetAllocatorGroup on failure
@@ -1153,6 +1197,7 @@ func (w *world) doCheckLeader(c *cont) error {
 	}
 	w.clock.set(c.idx)
 	pre, preOK := w.record()
+	w.takeEvents()
 	var (
 		leader *pdpb.Member
 		rev    int64
@@ -1162,6 +1207,10 @@ func (w *world) doCheckLeader(c *cont) error {
 		leader, rev, again = c.m.CheckLeader()
 	} else {
 		leader, rev, again = c.lta.CheckAllocatorLeader()
+	}
+	if envFailure(w.takeEvents()) {
+		w.info.Inconclusive = true
+		return nil
 	}
 	post, postOK := w.record()
 	if again {
@@ -1368,6 +1417,10 @@ func (w *world) doRace(op Op) error {
 		return fmt.Errorf("race (schedule %v): %v", op.Sched, err)
 	}
 	_ = werr
+	if envFailure(evs) {
+		w.info.Inconclusive = true
+		return nil
+	}
 	free := 0
 	if !preOK {
 		free = 1
